@@ -85,6 +85,14 @@ func TransformModuleFilesToModel( //nolint:funlen,gocognit,cyclop
 		if err != nil {
 			var syntaxError *multierror.Error
 			if errors.As(err, &syntaxError) {
+				// a syntax error names the file it was found in, like every other error of the merge
+				for _, item := range syntaxError.Errors {
+					var dslSyntaxError *OpenFgaDslSyntaxError
+					if errors.As(item, &dslSyntaxError) {
+						dslSyntaxError.File = module.Name
+					}
+				}
+
 				transformErrors = multierror.Append(transformErrors, syntaxError.Errors...)
 			}
 
